@@ -78,7 +78,7 @@ def cases(tier: str, seed: int) -> List[Dict[str, Any]]:
             for pre in ("bfloat16", "float16"):
                 out.append({"kind": "probe", "op": name, "cfg": dict({k: v[0] for k, v in op.coords.items()}, dtype="float64", constraint=None,
                                                                    **({"fin": 5, "fout": 3} if "fin" in op.coords else {})),
-                            "constraint": c, "seed": seed, "pre_dtype": pre})
+                            "constraint": c, "seed": seed, "pre_dtype": pre, "fresh": True})
     # residual ops: forward and backward weights of each path are one value (fixed constraint)
     for tau in (1e-3, 0.25, 0.5, 1.0, 3.0, 1e3, None):
         out.append({"kind": "residual", "tau": tau})
